@@ -240,6 +240,24 @@ func digestOf(seq []TV) (string, int) {
 	return hx(h.Sum()), bad
 }
 
+// digestVia: the same, but when every value is a WriterToWithDomain and viaNew is set the values are handed to
+// hash.New(values...) (what protocol.Message.Hash does); New must frame them exactly as New() + WriteAny does
+func digestVia(seq []TV, viaNew bool) (string, int, bool) {
+	d, bad := digestOf(seq)
+	if !viaNew || len(seq) == 0 {
+		return d, bad, false
+	}
+	ws := make([]hash.WriterToWithDomain, 0, len(seq))
+	for _, v := range seq {
+		w, ok := toGo(v).(hash.WriterToWithDomain)
+		if !ok || w == nil {
+			return d, bad, false
+		}
+		ws = append(ws, w)
+	}
+	return hx(hash.New(ws...).Sum()), bad, true
+}
+
 // mutatePair derives an adversarially related sequence: shifted boundaries, merged / split
 // items, retyped items with equal bytes, permutations, byte moved into the domain tag.
 func mutatePair(c *Ctx, seq []TV) ([]TV, string) {
@@ -353,11 +371,22 @@ func init() {
 			a, ba := digestOf(p[0])
 			b, bb := digestOf(p[1])
 			c.Emit("pair", J{"a": p[0], "b": p[1], "kind": "corpus"}, J{"da": a, "db": b, "ea": ba, "eb": bb, "same": a == b})
+			if a2, _, via := digestVia(p[0], true); via {
+				if b2, _, via2 := digestVia(p[1], true); via2 {
+					c.Emit("pair", J{"a": p[0], "b": p[1], "kind": "corpus", "via": "hash.New(items...)"}, J{"da": a2, "db": b2, "ea": ba, "eb": bb, "same": a2 == b2})
+					c.Count("frame/via-new")
+				}
+			}
 		}
 		for i := 0; i < c.N; i++ {
 			seq := genSeq(c, 6)
-			d, bad := digestOf(seq)
-			c.Emit("digest", J{"items": seq}, J{"sum": d, "bad": bad})
+			d, bad, via := digestVia(seq, i%2 == 1)
+			in := J{"items": seq}
+			if via {
+				in["via"] = "hash.New(items...)"
+				c.Count("frame/via-new")
+			}
+			c.Emit("digest", in, J{"sum": d, "bad": bad})
 			c.Count("frame/len/" + string(rune('0'+len(seq))))
 			if bad >= 0 {
 				c.Count("frame/refused")
@@ -366,9 +395,16 @@ func init() {
 		for i := 0; i < c.N; i++ {
 			a := genSeq(c, 5)
 			b, kind := mutatePair(c, a)
-			da, ba := digestOf(a)
-			db, bb := digestOf(b)
-			c.Emit("pair", J{"a": a, "b": b, "kind": kind}, J{"da": da, "db": db, "ea": ba, "eb": bb, "same": da == db})
+			da, ba, viaA := digestVia(a, i%2 == 1)
+			db, bb, viaB := digestVia(b, viaA)
+			in := J{"a": a, "b": b, "kind": kind}
+			if viaA && viaB {
+				in["via"] = "hash.New(items...)"
+				c.Count("frame/via-new")
+			} else if viaA {
+				da, ba = digestOf(a)
+			}
+			c.Emit("pair", in, J{"da": da, "db": db, "ea": ba, "eb": bb, "same": da == db})
 			c.Count("frame/pairkind/" + kind)
 		}
 		// commitments
